@@ -853,3 +853,14 @@ package keeper
 //@ let v := old(k.stakingKeeper.GetValidator(goCtx, va.0))
 //@ ensures [registered-validator] result1 == nil ==> va.1 == nil && v.1 == nil && v.0.GetConsAddr().1 == nil
 //@ ensures [acts-for-message-validator] result1 == nil ==> $HandleSetConsumerCommissionRate.called && $HandleSetConsumerCommissionRate.consumerId == msg.ConsumerId && $HandleSetConsumerCommissionRate.providerAddr == types.NewProviderConsAddress(v.0.GetConsAddr().0) && $HandleSetConsumerCommissionRate.commissionRate == msg.Rate && $HandleSetConsumerCommissionRate.ret == nil
+
+// ---------------------------------------------------------------- C20 / C19: applying queued infraction parameters
+
+//@ func Keeper.BeginBlockUpdateInfractionParameters
+//@ loop 1 step [applied-present] k.GetInfractionParameters(ctx, consumerId).1 == nil
+//@ loop 1 step [applied-value] $GetQueuedInfractionParameters.called && $GetQueuedInfractionParameters.consumerId == consumerId && $GetQueuedInfractionParameters.ret1 == nil && $SetInfractionParameters.called && $SetInfractionParameters.consumerId == consumerId && $SetInfractionParameters.parameters == $GetQueuedInfractionParameters.ret0
+//@ loop 1 step [applied-value-stored] (stretch) k.GetInfractionParameters(ctx, consumerId).0 == prev(k.GetQueuedInfractionParameters(ctx, consumerId)).0
+//@ loop 1 step [queue-entry-consumed] !k.HasQueuedInfractionParameters(ctx, consumerId)
+//@ loop 1 step [others-untouched] E == prev(E) && X == prev(X) && (forall key bytes :: key != types.ConsumerIdToInfractionParametersKey(consumerId) && key != types.ConsumerIdToQueuedInfractionParametersKey(consumerId) ==> S[key] == prev(S[key]))
+//@ ensures [fails-only-on-missing-queued-parameters] result != nil && $GetQueuedInfractionParameters.called ==> $GetQueuedInfractionParameters.ret1 != nil
+//@ ensures [no-deps] E == old(E) && X == old(X)
